@@ -105,6 +105,7 @@ def distance(lat1, lon1, lat2, lon2, H=0):
         phi2
     )
     cos = np.where(cos > 1, 1, cos)
+    cos = np.where(cos < -1, -1, cos)
 
     arc = np.arccos(cos)
     dist = arc * (r_earth + H)  # meters, radius of earth
